@@ -302,13 +302,8 @@ func allFit(bits int, m *big.Int, op string, kind string, a, b *big.Int) bool {
 	case "div":
 		_, ok := divFits(bits, m, a, b)
 		return ok
-	case "mod":
-		q, ok := divFits(bits, m, a, b)
-		if !ok {
-			return false
-		}
-		t := mulB(tq(q, m), m)
-		return fitsS(mulB(b, t), bits)
+	case "mod": // `f % value` / Int128.Mod: no intermediate; the exact result always fits, only the zero divisor is outside
+		return b.Sign() != 0
 	case "neg", "abs":
 		return fitsS(new(big.Int).Neg(a), bits)
 	case "ceil":
